@@ -100,7 +100,9 @@ def builtin_transpose(a, a_cols):
 
     res_mat = np.transpose(a_mat)
 
-    return res_mat.reshape(-1, order="F")
+    # For a single row or column, everything up to here is a view of *a*.
+    # Copy, so that assigning to an element of the result leaves *a* alone.
+    return np.array(res_mat.reshape(-1, order="F"))
 
 
 def builtin_linear_solve(a, b, a_cols, b_cols):
